@@ -837,11 +837,362 @@ fn c06_cases(ctx: &mut Ctx) {
   ctx.dist.insert("c06/max-relerr-jsa-times-1e15".to_string(), (worst_e * 1e15) as u64);
 }
 
+
+// ------------------------------------------------------------------------------------------ C07
+
+fn next_up(x: f64) -> f64 {
+  if x.is_nan() || x == f64::INFINITY {
+    return x;
+  }
+  if x == 0.0 {
+    return f64::from_bits(1);
+  }
+  let b = x.to_bits();
+  f64::from_bits(if x > 0.0 { b + 1 } else { b - 1 })
+}
+fn next_down(x: f64) -> f64 {
+  -next_up(-x)
+}
+
+/// are the three wavelengths of (ws, wi, ws+wi) inside the crystal's transmission window?
+fn in_window(spdc: &SPDC, ws: f64, wi: f64) -> bool {
+  let (lo, hi) = window(&spdc.crystal_setup.crystal);
+  let two_pi_c = spdcalc::TWO_PI * 299_792_458.0;
+  [ws, wi, ws + wi].iter().all(|&x| x > 0.0 && {
+    let l = two_pi_c / x;
+    l >= lo && l <= hi
+  })
+}
+
+struct Spectra {
+  raw: Complex<f64>,
+  sraw: f64,
+  jsa: Complex<f64>,
+  jsi: f64,
+  jsis: f64,
+}
+
+fn spectra(js: &JointSpectrum, spdc: &SPDC, ws: f64, wi: f64, integ: Integrator) -> Option<Spectra> {
+  let (j, s) = (js.clone(), spdc.clone());
+  guard(move || Spectra {
+    raw: jsa_raw(w(ws), w(wi), &s, integ),
+    sraw: jsi_singles_raw(w(ws), w(wi), &s, integ),
+    jsa: j.jsa(w(ws), w(wi)),
+    jsi: j.jsi(w(ws), w(wi)).value_unsafe,
+    jsis: j.jsi_singles(w(ws), w(wi)).value_unsafe,
+  })
+}
+
+fn c07_cases(ctx: &mut Ctx) {
+  let opts = GenOpts { plane_wave: false, phase_matched: false };
+  let opts_pm = GenOpts { plane_wave: false, phase_matched: true };
+  let mut made = 0;
+  let mut tries = 0;
+  let mut worst_lin = 0.0f64;
+  let mut worst_inv = 0.0f64;
+  while made < ctx.n && tries < 30 * ctx.n + 100 {
+    tries += 1;
+    let o = if tries % 3 == 0 { &opts } else { &opts_pm };
+    let spdc = match gen_setup(&mut ctx.rng, o) {
+      Some(s) => s,
+      None => {
+        ctx.count("c07/setup-rejected");
+        continue;
+      }
+    };
+    let divs = *ctx.rng.pick(&[10usize, 20, 50]);
+    let integ = Integrator::Simpson { divs };
+    let s1 = spdc.clone();
+    let js = match guard(move || s1.joint_spectrum(integ)) {
+      Some(j) => j,
+      None => {
+        ctx.count("c07/joint-spectrum-unavailable");
+        continue;
+      }
+    };
+    made += 1;
+    count_setup(ctx, "c07", &spdc);
+    let desc = describe(&spdc);
+    let wp0 = raw_w(spdc.pump.frequency());
+    let lp = spdc.pump.vacuum_wavelength();
+    let bw = spdc.pump_bandwidth;
+    let thr = spdc.pump_spectrum_threshold;
+
+    // ---- envelope: amplitude 1 at the centre, intensity 1/2 at ± half the frequency span of the FWHM
+    let a0 = pump_spectral_amplitude(w(wp0), &spdc);
+    ctx.s("C07.envelope", (a0 - 1.0).abs() <= 1e-12, "envelope/centre", &format!("amp={:e} {}", a0, desc));
+    let span = raw_w(vacuum_wavelength_to_frequency(lp - 0.5 * bw) - vacuum_wavelength_to_frequency(lp + 0.5 * bw));
+    for sgn in [1.0, -1.0] {
+      let om = wp0 + sgn * 0.5 * span;
+      let a = pump_spectral_amplitude(w(om), &spdc);
+      // the argument wp0 ± span/2 is itself rounded to ulp(wp0): relative error ulp(wp0)/span in x
+      let slack = 1e-9 + 4.0 * (wp0 * f64::EPSILON) / span.abs();
+      ctx.s(
+        "C07.envelope",
+        (a * a - 0.5).abs() <= slack,
+        "envelope/half",
+        &format!("intensity={:.17e} omega={:.17e} span={:.17e} {}", a * a, om, span, desc),
+      );
+      ctx.k("pump_amp", &format!("{} {} {}", fl(om), fl(wp0), fl(bw.value_unsafe)), &fl(a));
+    }
+
+    // ---- jsa_raw = envelope × phase-matching amplitude ; finite inside the window
+    let v = view(&spdc).unwrap();
+    let mut pts: Vec<(f64, f64)> = Vec::new();
+    for _ in 0..3 {
+      pts.push(gen_freqs(&mut ctx.rng, &spdc));
+    }
+    // a point on each side of the threshold contour
+    let sigma = raw_w(fwhm_to_spectral_width(lp, bw));
+    let xthr = (-thr.ln()).sqrt();
+    let ws0 = raw_w(spdc.signal.frequency());
+    let wi0 = raw_w(spdc.idler.frequency());
+    for eps in [1e-12, 1e-6, 1e-2] {
+      for side in [-1.0, 1.0] {
+        let d = xthr * sigma * (1.0 + side * eps) * if ctx.rng.coin() { 1.0 } else { -1.0 };
+        let split = ctx.rng.unit();
+        pts.push((ws0 + split * d, wi0 + (1.0 - split) * d));
+      }
+    }
+    for (ws, wi) in pts.iter().cloned() {
+      let det = format!("ws={:.17e} wi={:.17e} divs={} {}", ws, wi, divs, desc);
+      let alpha = pump_spectral_amplitude(w(ws) + w(wi), &spdc);
+      let s1 = spdc.clone();
+      let pm = guard(move || *(phasematch_fiber_coupling(w(ws), w(wi), &s1, integ) / PerMeter4::new(1.0)));
+      let sp = spectra(&js, &spdc, ws, wi, integ);
+      let (pm, sp) = match (pm, sp) {
+        (Some(p), Some(s)) => (p, s),
+        _ => {
+          ctx.s("C07.finite", !in_window(&spdc, ws, wi), "finite/panic", &det);
+          continue;
+        }
+      };
+      // the statement's support box
+      let off_box = ws <= 0.0 || wi <= 0.0 || ws > wp0 || wi > wp0 || (ws - wi).abs() > 0.75 * wp0;
+      let below = alpha < thr;
+      ctx.count(if off_box { "c07/point/off-box" } else if below { "c07/point/below-threshold" } else { "c07/point/above-threshold" });
+      if off_box {
+        let z = sp.raw.re == 0.0 && sp.raw.im == 0.0 && sp.sraw == 0.0 && sp.jsa.re == 0.0 && sp.jsa.im == 0.0 && sp.jsi == 0.0 && sp.jsis == 0.0;
+        ctx.s("C07.zero", z, "zero/off-box-near-centre", &format!("raw=({:e},{:e}) jsi={:e} jsis={:e} {}", sp.raw.re, sp.raw.im, sp.jsi, sp.jsis, det));
+      } else if below {
+        let z = sp.raw.re == 0.0 && sp.raw.im == 0.0 && sp.sraw == 0.0 && sp.jsa.re == 0.0 && sp.jsa.im == 0.0 && sp.jsi == 0.0 && sp.jsis == 0.0;
+        ctx.s("C07.zero", z, "zero/below-threshold", &format!("alpha={:e} raw=({:e},{:e}) jsi={:e} jsis={:e} {}", alpha, sp.raw.re, sp.raw.im, sp.jsi, sp.jsis, det));
+      } else {
+        let expect = alpha * pm;
+        let ok = (sp.raw.re == expect.re && sp.raw.im == expect.im) || rel_err_c(sp.raw, expect) <= 1e-12 || !(expect.re.is_finite() && expect.im.is_finite());
+        ctx.s("C07.factor", ok, "factor/envelope-times-pm", &format!("raw=({:e},{:e}) alpha={:e} pm=({:e},{:e}) {}", sp.raw.re, sp.raw.im, alpha, pm.re, pm.im, det));
+      }
+      if in_window(&spdc, ws, wi) {
+        let fin = sp.raw.re.is_finite() && sp.raw.im.is_finite() && sp.sraw.is_finite() && sp.jsa.re.is_finite() && sp.jsa.im.is_finite() && sp.jsi.is_finite() && sp.jsis.is_finite();
+        ctx.s("C07.finite", fin, "finite/in-window", &format!("raw=({:e},{:e}) sraw={:e} jsi={:e} jsis={:e} {}", sp.raw.re, sp.raw.im, sp.sraw, sp.jsi, sp.jsis, det));
+        ctx.count("c07/point/in-window");
+      } else {
+        ctx.count("c07/point/outside-window");
+      }
+      // correspondence: jsa_raw with its scale, normalisation layer
+      let nodes = simpson_nodes(divs);
+      let st = setup_tokens(&v, &spdc, ws, wi);
+      if let Some(sc) = simpson_abs_scale(&spdc, ws, wi, divs) {
+        let out = if sp.raw.re == 0.0 && sp.raw.im == 0.0 { format!("{} {}", cx(sp.raw), fl(0.0)) } else { format!("{} {}", cx(sp.raw), fl(alpha * sc)) };
+        ctx.k("jsa_raw", &format!("{} {} {} {}", st, jsa_tokens(&spdc), divs, apod_table(&spdc, &nodes)), &out);
+      }
+      ctx.k("jsa", &format!("{} {} {}", st, jsa_tokens(&spdc), cx(sp.raw)), &format!("{} {}", cx(sp.jsa), fl(sp.jsi)));
+    }
+
+    // ---- exact zeros off the support box (edges at ±1 ulp)
+    let mut off: Vec<(f64, f64, &str)> = vec![
+      (0.0, wi0, "nonpositive"),
+      (-0.0, wi0, "nonpositive"),
+      (ws0, 0.0, "nonpositive"),
+      (-ctx.rng.log_range(1e-300, 1e16), wi0, "nonpositive"),
+      (ws0, -ctx.rng.log_range(1e-300, 1e16), "nonpositive"),
+      (next_up(wp0), wi0 * 1e-3, "above-pump"),
+      (ws0 * 1e-3, next_up(wp0), "above-pump"),
+      (wp0 * ctx.rng.range(1.0001, 3.0), wi0, "above-pump"),
+      (ws0, wp0 * ctx.rng.range(1.0001, 3.0), "above-pump"),
+    ];
+    // |ws - wi| > 3/4 wp with both inside (0, wp]
+    let q = 0.75 * wp0;
+    let base = ctx.rng.range(0.01, 0.24) * wp0;
+    let hi_edge = {
+      // smallest double ws with (ws - base).abs() > q
+      let mut x = base + q;
+      while (x - base).abs() <= q {
+        x = next_up(x);
+      }
+      x
+    };
+    off.push((hi_edge, base, "difference"));
+    off.push((base, hi_edge, "difference"));
+    off.push((base + q * ctx.rng.range(1.0001, 1.3), base, "difference"));
+    for (ws, wi, class) in off.iter().cloned() {
+      let det = format!("class={} ws={:.17e} wi={:.17e} wp={:.17e} divs={} {}", class, ws, wi, wp0, divs, desc);
+      match spectra(&js, &spdc, ws, wi, integ) {
+        None => ctx.s("C07.zero", false, &format!("zero/{}/panic", class), &det),
+        Some(sp) => {
+          let z = sp.raw.re == 0.0 && sp.raw.im == 0.0 && sp.sraw == 0.0 && sp.jsa.re == 0.0 && sp.jsa.im == 0.0 && sp.jsi == 0.0 && sp.jsis == 0.0;
+          ctx.s("C07.zero", z, &format!("zero/{}", class), &format!("raw=({:e},{:e}) sraw={:e} jsi={:e} jsis={:e} {}", sp.raw.re, sp.raw.im, sp.sraw, sp.jsi, sp.jsis, det));
+        }
+      }
+      ctx.k("invalid_freq", &format!("{} {} {}", fl(ws), fl(wi), fl(wp0)), "1");
+    }
+    // just inside the box: the support test itself (observed through jsa_raw with the threshold disabled)
+    let lo_edge = next_down(hi_edge);
+    for (ws, wi) in [(lo_edge, base), (base, lo_edge), (wp0, wi0 * 0.5), (ws0 * 0.5, wp0)] {
+      let mut s0 = spdc.clone();
+      s0.pump_spectrum_threshold = -1.0;
+      let r = guard(move || jsa_raw(w(ws), w(wi), &s0, Integrator::Simpson { divs: 6 }));
+      if let Some(r) = r {
+        // a value (even NaN) other than the literal zero means the box test let the pair through
+        let through = !(r.re == 0.0 && r.im == 0.0);
+        if through {
+          ctx.k("invalid_freq", &format!("{} {} {}", fl(ws), fl(wi), fl(wp0)), "0");
+        } else {
+          ctx.count("c07/inside-box/zero-integral");
+        }
+      }
+    }
+
+    // ---- linearity in power and deff² over 6 decades; invariance of ratios
+    let a = 10f64.powf(ctx.rng.range(-3.0, 3.0));
+    let b = 10f64.powf(ctx.rng.range(-3.0, 3.0));
+    let mut scaled = spdc.clone();
+    scaled.pump_average_power = a * spdc.pump_average_power;
+    scaled.deff = b * spdc.deff;
+    let s2 = scaled.clone();
+    let js2 = match guard(move || s2.joint_spectrum(integ)) {
+      Some(j) => j,
+      None => {
+        ctx.s("C07.linear", false, "linear/joint-spectrum-panic", &format!("a={:e} b={:e} {}", a, b, desc));
+        continue;
+      }
+    };
+    let f = a * b * b;
+    for _ in 0..2 {
+      let (ws, wi) = gen_freqs(&mut ctx.rng, &spdc);
+      let det = format!("a={:e} b={:e} ws={:.17e} wi={:.17e} divs={} {}", a, b, ws, wi, divs, desc);
+      let (j1, j2) = (js.clone(), js2.clone());
+      let r = guard(move || {
+        (
+          j1.jsi(w(ws), w(wi)).value_unsafe,
+          j2.jsi(w(ws), w(wi)).value_unsafe,
+          j1.jsi_singles(w(ws), w(wi)).value_unsafe,
+          j2.jsi_singles(w(ws), w(wi)).value_unsafe,
+          j1.jsi_normalized(w(ws), w(wi)),
+          j2.jsi_normalized(w(ws), w(wi)),
+          j1.jsi_singles_normalized(w(ws), w(wi)),
+          j2.jsi_singles_normalized(w(ws), w(wi)),
+          j1.jsa_normalized(w(ws), w(wi)),
+          j2.jsa_normalized(w(ws), w(wi)),
+        )
+      });
+      match r {
+        None => ctx.s("C07.linear", false, "linear/panic", &det),
+        Some((i1, i2, s1, s2, n1, n2, sn1, sn2, an1, an2)) => {
+          let fin = i1.is_finite() && i2.is_finite() && s1.is_finite() && s2.is_finite();
+          let e1 = rel_err(i2, f * i1);
+          let e2 = rel_err(s2, f * s1);
+          if fin && f * i1 > 1e-290 && f * i1 < 1e290 {
+            worst_lin = worst_lin.max(e1).max(e2);
+          }
+          let range_ok = |x: f64| x == 0.0 || (x.abs() > 1e-290 && x.abs() < 1e290);
+          ctx.s("C07.linear", !fin || !range_ok(f * i1) || !range_ok(i1) || e1 <= 1e-9, "linear/jsi", &format!("relerr={:e} jsi={:e} jsi_scaled={:e} {}", e1, i1, i2, det));
+          ctx.s("C07.linear", !fin || !range_ok(f * s1) || !range_ok(s1) || e2 <= 1e-9, "linear/jsi-singles", &format!("relerr={:e} jsis={:e} jsis_scaled={:e} {}", e2, s1, s2, det));
+          let fin = n1.is_finite() && n2.is_finite() && sn1.is_finite() && sn2.is_finite() && an1.norm().is_finite() && an2.norm().is_finite();
+          let en = rel_err(n1, n2).max(rel_err(sn1, sn2)).max(rel_err_c(an1, an2));
+          if fin && range_ok(f * i1) && range_ok(i1) {
+            worst_inv = worst_inv.max(en);
+          }
+          ctx.s("C07.invariant", !fin || !range_ok(f * i1) || !range_ok(i1) || !range_ok(f * s1) || en <= 1e-9, "invariant/normalized-spectra", &format!("relerr={:e} jsi_n=({:e},{:e}) jsis_n=({:e},{:e}) {}", en, n1, n2, sn1, sn2, det));
+        }
+      }
+    }
+    // rates, efficiencies, Schmidt number, HOM visibility over a small grid (every other setup)
+    if made % 2 == 0 {
+      let n = if ctx.thorough { 6 } else { 4 };
+      let (xs, yi) = small_grid(&mut ctx.rng, &spdc, n);
+      let range = FrequencySpace::new((w(xs.0), w(xs.1), xs.2), (w(yi.0), w(yi.1), yi.2));
+      let sinteg = Integrator::Simpson { divs: 10 };
+      let det = format!("a={:e} b={:e} xs=({:.17e},{:.17e},{}) yi=({:.17e},{:.17e},{}) divs=10 {}", a, b, xs.0, xs.1, xs.2, yi.0, yi.1, yi.2, desc);
+      let (s1, s2) = (spdc.clone(), scaled.clone());
+      let r = guard(move || {
+        let e1 = s1.efficiencies(range, sinteg);
+        let e2 = s2.efficiencies(range, sinteg);
+        let k1 = s1.joint_spectrum(sinteg).schmidt_number(range);
+        let k2 = s2.joint_spectrum(sinteg).schmidt_number(range);
+        let h1 = s1.hom_visibility(range, sinteg);
+        let h2 = s2.hom_visibility(range, sinteg);
+        (e1, e2, k1, k2, h1, h2)
+      });
+      match r {
+        None => ctx.s("C07.linear", false, "linear/rates-panic", &det),
+        Some((e1, e2, k1, k2, h1, h2)) => {
+          let rates = [
+            (e1.coincidences.value_unsafe, e2.coincidences.value_unsafe, "coincidences"),
+            (e1.signal_singles.value_unsafe, e2.signal_singles.value_unsafe, "signal-singles"),
+            (e1.idler_singles.value_unsafe, e2.idler_singles.value_unsafe, "idler-singles"),
+          ];
+          let range_ok = |x: f64| x == 0.0 || (x.abs() > 1e-280 && x.abs() < 1e280);
+          let mut all_ok = true;
+          for (r1, r2, name) in rates.iter() {
+            let fin = r1.is_finite() && r2.is_finite();
+            let e = rel_err(*r2, f * *r1);
+            let ok = !fin || !range_ok(f * *r1) || !range_ok(*r1) || e <= 1e-9;
+            if fin && range_ok(f * *r1) && range_ok(*r1) {
+              worst_lin = worst_lin.max(e);
+            } else {
+              all_ok = false;
+            }
+            ctx.s("C07.linear", ok, &format!("linear/rate-{}", name), &format!("relerr={:e} rate={:e} rate_scaled={:e} {}", e, r1, r2, det));
+          }
+          if all_ok {
+            let e = rel_err(e1.symmetric, e2.symmetric).max(rel_err(e1.signal, e2.signal)).max(rel_err(e1.idler, e2.idler));
+            worst_inv = worst_inv.max(e);
+            ctx.s("C07.invariant", e <= 1e-9, "invariant/efficiencies", &format!("relerr={:e} eff=({:e},{:e},{:e}) eff_scaled=({:e},{:e},{:e}) {}", e, e1.symmetric, e1.signal, e1.idler, e2.symmetric, e2.signal, e2.idler, det));
+            match (k1, k2) {
+              (Ok(k1), Ok(k2)) if k1.is_finite() && k2.is_finite() => {
+                let e = rel_err(k1, k2);
+                worst_inv = worst_inv.max(e);
+                ctx.s("C07.invariant", e <= 1e-9, "invariant/schmidt", &format!("relerr={:e} K={:e} K_scaled={:e} {}", e, k1, k2, det));
+              }
+              (Ok(_), Ok(_)) => ctx.count("c07/schmidt/non-finite"),
+              (Err(_), Err(_)) => ctx.count("c07/schmidt/err-both"),
+              _ => ctx.s("C07.invariant", false, "invariant/schmidt-err-one-side", &det),
+            }
+            if h1.1.is_finite() && h2.1.is_finite() {
+              let e = (h1.1 - h2.1).abs() / h1.1.abs().max(1.0);
+              ctx.s("C07.invariant", e <= 1e-9 && h1.0 == h2.0, "invariant/hom-visibility", &format!("abserr={:e} V={:e} V_scaled={:e} {}", e, h1.1, h2.1, det));
+            } else {
+              ctx.count("c07/hom/non-finite");
+            }
+          }
+        }
+      }
+    }
+    // normalisations and envelope width for the scaled setup (model ↔ implementation)
+    let (ws, wi) = gen_freqs(&mut ctx.rng, &scaled);
+    let vs = view(&scaled).unwrap();
+    let s2 = scaled.clone();
+    if let Some((x, y)) = guard(move || {
+      (
+        *(jsi_normalization(w(ws), w(wi), &s2) / JsiNorm::new(1.0)),
+        *(jsi_singles_normalization(w(ws), w(wi), &s2) / JsiSinglesNorm::new(1.0)),
+      )
+    }) {
+      ctx.k("norms", &format!("{} {}", setup_tokens(&vs, &scaled, ws, wi), jsa_tokens(&scaled)), &format!("{} {}", fl(x), fl(y)));
+    }
+    ctx.k("spectral_width", &format!("{} {}", fl(lp.value_unsafe), fl(bw.value_unsafe)), &fl(sigma));
+  }
+  ctx.dist.insert("c07/max-relerr-linearity-times-1e15".to_string(), (worst_lin * 1e15) as u64);
+  ctx.dist.insert("c07/max-relerr-invariance-times-1e15".to_string(), (worst_inv * 1e15) as u64);
+}
+
 pub fn run(ctx: &mut Ctx) {
   let mode = ctx.extra.first().cloned().unwrap_or_else(|| "k".to_string());
   match mode.as_str() {
     "k" => k_cases(ctx),
     "c06" => c06_cases(ctx),
+    "c07" => c07_cases(ctx),
     _ => {}
   }
   let _ = (K, vacuum_wavelength_to_frequency(1e-6 * M), Steps2D((0., 1., 2), (0., 1., 2)));
